@@ -73,7 +73,9 @@ class _TabulationCutoff(object):
     elif cutoff and dr:
       # Set nr
       nr = (cutoff/dr) + 1
-      nr = int(nr)
+      # cutoff/dr of a cutoff that is a whole multiple of dr can fall just below the
+      # integer (e.g. 2.997/0.003 = 998.9999999999999): round before truncating.
+      nr = int(round(nr, 9))
     elif not dr is None:
       raise ConfigParserException("'{dr}' cannot be specified without either '{nr}' or '{cutoff}' in [Tabulation] section of potential definition.".format(**self._template_dict))
 
